@@ -504,6 +504,142 @@ func c19c(c *Ctx) {
 		}
 		c.Check(ok, "skipWhitespace/set", c.W.FuncPos(sw), "whitespace = space, tab, LF, CR", "skipWhitespace consumes under ["+got+"], expected exactly ch in {' ', '\\t', '\\n', '\\r'}")
 	}
+	// line breaks inside a string literal: LF and CR alike (a CRLF file must tokenise like its
+	// LF twin): the joining space is written exactly when the current character is LF or CR,
+	// whether that is tested in place or by a helper that consumes a run of LF / CR
+	if rs := c.Fn("lexer.Lexer.readString"); rs != nil {
+		nlSet := func(f *ssa.Function, d dnf) (bool, string) {
+			// project onto the positive tests of the current character — the character of the
+			// innermost loop (the one with the latest version tag)
+			verRe := regexpMust(`^\(\$0\.ch!L(\d+) == `)
+			maxVer := -1
+			for _, a := range dnfAtoms(d) {
+				if m := verRe.FindStringSubmatch(a); m != nil {
+					var k int
+					fmt.Sscan(m[1], &k)
+					if k > maxVer {
+						maxVer = k
+					}
+				}
+			}
+			out := dnf{}
+			for _, cj := range d.cs {
+				var n conj
+				for _, l := range cj {
+					if l[0] != '+' || !strings.HasPrefix(l[1:], "($0.ch") || !strings.Contains(l, " == ") {
+						continue
+					}
+					if maxVer >= 0 {
+						m := verRe.FindStringSubmatch(l[1:])
+						if m == nil {
+							continue // the character as it was before the loop
+						}
+						var k int
+						fmt.Sscan(m[1], &k)
+						if k != maxVer {
+							continue
+						}
+					}
+					n = append(n, l)
+				}
+				out.cs = append(out.cs, n)
+			}
+			out.cs = simplify(out.cs)
+			var atoms []string
+			for _, a := range dnfAtoms(out) {
+				atoms = append(atoms, a)
+			}
+			ch := loopCh(atoms)
+			want := mkDNF([]string{"+(" + ch + " == 10)"}, []string{"+(" + ch + " == 13)"})
+			return dnfEquiv(out, want), out.String()
+		}
+		found := false
+		for _, m := range c.unitOf(rs) {
+			for _, ws := range c.sitesOf(m.fn) {
+				if !(ws.konst && ws.format == " " && ws.depth == 0) {
+					continue
+				}
+				found = true
+				pos := c.W.Pos(ws.call.Pos())
+				viaHelper := ""
+				for _, l := range siteMust(ws) {
+					if strings.HasPrefix(l, "+(*lexer.Lexer).") && strings.Contains(l, "@") {
+						viaHelper = strings.TrimPrefix(l[:strings.Index(l, "@")], "+(*lexer.Lexer).")
+						viaHelper = strings.TrimSuffix(viaHelper, "($0)")
+					}
+				}
+				if viaHelper != "" {
+					h := c.W.Method("lexer", "Lexer", viaHelper)
+					okSet, got := false, ""
+					okFlag := false
+					if h != nil {
+						for _, b := range h.Blocks {
+							if !isLoopHeader(b) {
+								continue
+							}
+							for x := range loopBody(b) {
+								for _, ci := range callsIn(h) {
+									if ci.Block() == x && callee(ci) != nil && callee(ci).Name() == "readChar" {
+										okSet, got = nlSet(h, c.PC(h).At(x))
+									}
+								}
+							}
+						}
+						// the result says whether anything was skipped: false on entry, true once the body ran
+						for _, r := range returnsOf(h) {
+							if ph, isPhi := r.Results[0].(*ssa.Phi); isPhi && isLoopHeader(ph.Block()) {
+								sawFalse, sawTrue := false, false
+								for i, e := range ph.Edges {
+									back := ph.Block().Dominates(ph.Block().Preds[i])
+									if t := c.term(h, e); t == "false" && !back {
+										sawFalse = true
+									} else if t == "true" && back {
+										sawTrue = true
+									}
+								}
+								okFlag = sawFalse && sawTrue
+							}
+						}
+						// or: constant results, true only after a character was read, false only before
+						if !okFlag {
+							isRead := func(in ssa.Instruction) bool {
+								ci, ok := in.(ssa.CallInstruction)
+								return ok && callee(ci) != nil && callee(ci).Name() == "readChar"
+							}
+							nT, nF, bad := 0, 0, false
+							for _, r := range returnsOf(h) {
+								rr := r
+								switch c.term(h, r.Results[0]) {
+								case "true":
+									nT++
+									if _, free := existsPath(pathQuery{from: entry(h), avoid: isRead, target: func(in ssa.Instruction) bool { return in == ssa.Instruction(rr) }}); free {
+										bad = true
+									}
+								case "false":
+									nF++
+									for _, ci := range callsIn(h) {
+										if isRead(ci.(ssa.Instruction)) {
+											if _, reach := existsPath(pathQuery{from: after(ci.(ssa.Instruction)), target: func(in ssa.Instruction) bool { return in == ssa.Instruction(rr) }}); reach {
+												bad = true
+											}
+										}
+									}
+								default:
+									bad = true
+								}
+							}
+							okFlag = nT > 0 && nF > 0 && !bad
+						}
+					}
+					c.Check(okSet && okFlag, "readString/line-break-in-literal", pos, "a run of LF / CR inside a literal (reported by "+viaHelper+") becomes one space", "the helper "+viaHelper+" that decides whether a literal continues on the next line does not consume exactly a run of LF / CR characters and report whether there was one (consumes under ["+got+"]): a CRLF file would tokenise differently from its LF twin")
+				} else {
+					okSet, got := nlSet(m.fn, ws.cond)
+					c.Check(okSet, "readString/line-break-in-literal", pos, "LF or CR inside a literal becomes one space", "the joining space inside a string literal is written under ["+got+"], expected exactly when the current character is LF or CR: a CRLF file would tokenise differently from its LF twin")
+				}
+			}
+		}
+		c.Check(found, "readString/line-break-in-literal/site", c.W.FuncPos(rs), "line breaks inside a literal are replaced by a space", "readString no longer writes a joining space for a line break inside a literal")
+	}
 	// comment openers and skipping before dispatch
 	var dispatch, head *ssa.BasicBlock
 	for _, b := range fn.Blocks {
